@@ -63,11 +63,20 @@ FAILS = {
     "div-opassign-elem": (["lz: [int...] = [10]", "z = a - a", "lz[0] /= z"], "zero-divisor", "/ by 0"),
     "shift-range-boxed": (["v = a << \"40\".parse_int()"], "overflow", None),
     "conv-byte-boxed": (["v = \"300\".parse_int().to_byte()"], "conversion", None),
+    # the one quotient that does not fit its kind, and built-in arguments outside their range
+    "div-min": (["lo = 0 - 2147483647", "lo = lo - a", "m1 = 0 - a", "v = lo / m1"], "overflow", None),
+    "div-min-big": (["lb = B0 - B170141183460469231731687303715884105727", "lb = lb - a", "m1 = 0 - a", "v = lb / m1"], "overflow", None),
+    "div-min-opassign": (["lo = 0 - 2147483647", "lo = lo - a", "m1 = 0 - a", "lo /= m1"], "overflow", None),
+    "div-min-elem": (["le: [int...] = [0 - 2147483647]", "le[0] -= a", "m1 = 0 - a", "v = le[0] / m1"], "overflow", None),
+    "radix-range": (["rx = 98 + a", "v = \"ff\".parse_int_radix(rx)"], "conversion", None),
+    "radix-range-low": (["rx = a", "v = \"1\".parse_int_radix(rx)"], "conversion", None),
+    "radix-range-big": (["rx = 36 + a", "v = \"ff\".parse_bigint_radix(rx)"], "conversion", None),
+    "repeat-range": (["rn = 0 - a", "v = \"ab\" * rn"], "range", None),
 }
 CARRIED_FAILS = [k for k in FAILS if any(t in k for t in ("-boxed", "-elem", "-field", "-map-entry", "-opassign"))]
 # failure kinds raised by a built-in method -> a fragment of that built-in's name in the `<native code>#...` trace line
-NATIVE_OF = {"remove": "Remove", "remove-at-len": "Remove", "substring": "Substring", "conv-byte": "ToByte", "conv-int": "ToInt"}
-QUICK_FAILS = CARRIED_FAILS + ["assert", "get-nil", "index", "index-at-len", "set-at-len", "div-int", "div-byte", "overflow-add", "conv-byte", "remove", "nil-field", "div-float"]
+NATIVE_OF = {"radix-range": "ParseIntRadix", "radix-range-low": "ParseIntRadix", "radix-range-big": "ParseBigintRadix", "remove": "Remove", "remove-at-len": "Remove", "substring": "Substring", "conv-byte": "ToByte", "conv-int": "ToInt"}
+QUICK_FAILS = CARRIED_FAILS + ["assert", "get-nil", "index", "index-at-len", "set-at-len", "div-int", "div-byte", "overflow-add", "conv-byte", "remove", "nil-field", "div-float", "div-min", "div-min-big", "div-min-opassign", "radix-range", "radix-range-low", "radix-range-big", "repeat-range"]
 
 
 def chain_ok(chain):
